@@ -42,7 +42,7 @@ CLAIMS = {
         text=('Acceptance by the real encoders is compared, on ~2.2 M operand tuples reaching far beyond both ends of every '
               'interval, all residues of every scale, all register numbers and non-register spellings, with the specification\'s '
               'Legal predicate (written from the ISA manual and the instruction reference) and with the Lean model; the text path '
-              'checks that illegal lines are refused by an AssemblerError and legal ones assemble. Theorems tie model acceptance to Legal. Whole programs (C06Program.lean): unrepresentable_refused_program(16) - an instruction whose operands are not Legal, anywhere among good items, makes the whole assembly fail with the error on its line (no output), both modes; legal_instr_good + good_program_assembles - Legal literal 32-bit instructions are accepted in both modes and a program of good items assembles.'),
+              'checks that illegal lines are refused by an AssemblerError and legal ones assemble. Theorems tie model acceptance to Legal. Whole programs (C06Program.lean): unrepresentable_refused_program(16) - an instruction whose operands are not Legal, anywhere among good items (items that assemble in every context: no constant definitions, no references to labels), makes the whole assembly fail with the error on its line (no output), both modes; legal_instr_good + good_program_assembles - Legal literal 32-bit instructions are accepted in both modes and a program of good items assembles.'),
         note=TB + ' CSR numbers follow the signed 12-bit I-immediate (documented nowhere else); jalr offsets must be even as documented.',
         ref='DESIGN.md §5 C06'),
     'C07': dict(
@@ -80,7 +80,7 @@ CLAIMS.update({
         technique='Lean 4 theorems: assemble_layout (final label table = byte offsets), imm_walk_positions and offset/position/hi/lo_value (what each modifier evaluates to, at which position); value oracle on the real output',
         text=('Theorems: resolve_immediates visits every item at its own byte position and moves no label (imm_walk_positions), against the '
               'final label table, which assemble_layout proves to be the byte offsets; %offset(L) = labels[L] - position, %position(L, b) = '
-              'labels[L] + b, a bare label = labels[L], %hi/%lo of those values (offset_value, position_value, hi_value, lo_value, '
+              'labels[L] + b, %hi/%lo of those values (a bare name is an arithmetic expression: that it evaluates to labels[L] is part of C11, not a C08 theorem) (offset_value, position_value, hi_value, lo_value, '
               'data_item_value, instr_item_value; the jalr of an auipc pair at the auipc position); assemble_data_value composes this through the '
               'pipeline: a db/dh/dw/dd <expr> item emits at its byte offset the little-endian bytes of the value of <expr> evaluated at that '
               'offset against the returned tables. The check recovers the value each referring item encodes in the real '
@@ -159,8 +159,8 @@ CLAIMS.update({
               'SrcOK (every instruction immediate is label-free or a branch/jal %offset to a LABEL that no constant shadows; data immediates '
               'label-free; pseudo transfer targets are labels), AlignFreeTransfers (no align between a transfer and its target), NearRefs '
               '(pessimistic distances below 1 MiB; holds for every program below 1 MiB), and LitOK / Neg1OK / OffsetHook of the hooks, which '
-              'the text front end satisfies (textHooks_hooks). Each hypothesis is forced by a real counterexample (KF-A3, KF-B, KF-B2, KF-F, '
-              'KF-G); EvenAligns is not needed. Explored: each generated program is assembled both ways by the real assembler; '
+              'the text front end satisfies (textHooks_hooks). AlignFreeTransfers and the label-free / label-target conditions are forced by real counterexamples (KF-A3, KF-B, KF-B2, KF-F, '
+              'KF-G); the remaining members (no hand-written c.* item - wellKinded, no auipc-marked item, sizes below 2^31, positive aligns) are conveniences of the proof that hold of parsed text (parseItem_wellKinded); EvenAligns is not needed. Explored: each generated program is assembled both ways by the real assembler; '
               'success without -c and failure with -c is a violation unless the failing line is in the known-finding classes KF-A3 / KF-B '
               '(a compression rule consulted a label-dependent immediate that later left the compressed operand set) or KF-E (alignment to an odd boundary: distances do not keep their parity - found by the proof attempt; C04.compressed_never_refused shows that label-free and label-transfer decisions are otherwise never the cause). Final form (C12Program2.lean): compress_preserves_success_program2 drops the 1 MiB span hypothesis (far-without / near-with call and tail followed through both runs); the thorough tier also builds the slow library BBSlow with a concrete 1 MiB witness evaluated in the kernel in both modes.'),
         note=TB,
@@ -289,8 +289,7 @@ CLAIMS.update({
               'failure, an offset Intel HEX cannot hold) leaves the filesystem untouched with a non-zero status (plan_error_untouched, '
               'plan_error_ne0, bad_offset_exits, out_of_range_offset_exits); a run that gets as far as writing has 0 <= offset and offset + '
               'size <= 2^32 (plan_offset_in_range), so under the stated assumption on bin2hex (HexOk: it does not raise for images Intel HEX '
-              'can hold) EVERY failing run leaves the filesystem unchanged (cli_failure_untouched_range; cli_failure_untouched_hex: the only '
-              'way to change it while failing would be bin2hex raising); on success exit 0, -o = the assembled bytes, -l = one '
+              'can hold) every failing run that is not an operating-system write failure leaves the filesystem unchanged (cli_failure_untouched_range, with the hypothesis not-osFailure; assembler_failure_untouched states the property\'s own quantifier - a failure raised by a pass of the assembler - unconditionally); an OS-refused write is modelled faithfully (ExitStatus.osError: the -l file stays written when -o cannot be opened, os_failure_after_labels_written; not_cliFailureUntouched refutes the unrestricted statement); on success exit 0, -o = the assembled bytes, -l = one '
               '`name 0x%08x` line per label in table order, .hex = bin2hex\'s output, all other paths unchanged (cli_success_files, '
               'labelText_lines), and the .hex file decodes under the specification decoder to the bytes at the offset '
               '(cli_success_hex_decodes); Hex.decode (Hex.encode off bs) = (off, bs) for all off + |bs| <= 2^32 (hex_roundtrip), so the '
@@ -320,7 +319,7 @@ CLAIMS.update({
               'position x include depth 0-3 x both modes, faults on instructions, pseudo-instructions, data directives, explicit c.* '
               'mnemonics and lines a compression rule inspects, escapes unicode_escape rejects - are assembled by the real code; exception '
               'type, .line.file and .line.number must be the planted line\'s, ~10 % also through the CLI; the Lean model must reply the '
-              'same error location. Whole programs (C15Program.lean): fault_reported_at_its_line - one faulty item of a listed class anywhere between good items '
+              'same error location. Whole programs (C15Program.lean): fault_reported_at_its_line - one faulty item of a listed class anywhere between good items (good = assembles in every context: the surroundings may define labels but contain no constant definitions and no references to labels) '
               '(any labels, data, aligns, instructions, pseudo-instructions that assemble in every context) makes assembleItems fail with the assembler\'s error '
               'carrying that item\'s line, with and without compression; one instance per class; first_fault_wins_*: which of two faults is reported.'),
         note=TB + ' Wrong operand counts, unknown mnemonics / pack formats, align 0 and include cycles are not among the listed classes and are not planted. For a duplicated label either definition\'s line satisfies the oracle; the model demands the second. The whole-pipeline statement is proved for one fault among context-independent good items (GoodItem); surroundings whose own success depends on the layout are covered by the planted-fault runs only.',
